@@ -58,8 +58,14 @@ SERVER_SPELLINGS = {
 def _env(cfg):
     if cfg.get("server"):
         addr, spec = SERVER_SPELLINGS[cfg["server"]]
-        return Env(addrs=[addr], spec=spec)
-    return Env()
+        env = Env(addrs=[addr], spec=spec)
+    else:
+        env = Env()
+    if cfg.get("coalesce") is False:
+        env.net.coalesce = False          # every reply line in a packet (a recv) of its own
+    if cfg.get("dialect"):
+        env.server.dialect = set(cfg["dialect"])   # the server answers in a dialect (vlib/mcserver.py)
+    return env
 
 
 def build_kwargs(cfg, env):
@@ -510,8 +516,21 @@ ERR_CALLS = [c for c in CALLS if c["op"] in ("incr", "decr") or c.get("key") == 
 FOLLOW_CALLS = [CALLS[0], CALLS[13], CALLS[16], CALLS[24], CALLS[27], CALLS[30], CALLS[33], CALLS[37]]
 
 
+# storage commands whose command line the server refuses (numbers out of range): the data block that was sent along is then read
+# as a command of its own and answered with a second error line - in another packet when replies are not coalesced
+REFUSED_LINES = [{"op": "set", "key": "k", "value": "v", "flags": 2 ** 32, "noreply": False}, {"op": "add", "key": "zz", "value": "v", "flags": 2 ** 40, "noreply": False},
+                 {"op": "set", "key": "k", "value": "v", "expire": 2 ** 70, "noreply": False}, {"op": "set_many", "values": {"a": "1", "k": "2"}, "flags": 2 ** 32, "noreply": False},
+                 {"op": "cas", "key": "k", "value": "v", "cas": 2 ** 64, "noreply": False}, {"op": "incr", "key": "k", "delta": 2 ** 64}]
+
+
 def sequence_cases(tier, seed):
     """an error-provoking call followed by ordinary calls on the same object (state carried by the wrapper must not leak)"""
+    for cfg in ({"coalesce": False}, {"coalesce": False, "key_prefix": b"p:", "default_noreply": False}, {}, {"dialect": ["hangup-after-error"]},
+                {"dialect": ["hangup-after-error"], "coalesce": False}):
+        for state in ("hit", "numeric"):
+            for e in REFUSED_LINES + [c_ for c_ in ERR_CALLS if c_["op"] in ("incr", "decr")][:2]:
+                for f in FOLLOW_CALLS[:4]:
+                    yield {"cfg": cfg, "state": state, "ops": [e, f, FOLLOW_CALLS[0]]}
     for cfg in (CFGS[0], CFGS[3], CFGS[7]):
         for state in ("hit", "numeric", "miss", "none"):
             for e in ERR_CALLS:
